@@ -21,13 +21,13 @@ theorem parent_refl_facts {api : Api} (hapi : apiWF api = true) {ns : Namespace}
 
 theorem typeWF_subtypes_clause {api : Api} {ns : Namespace} {pre : List DataType} {d : DataType}
     (h : typeWF api ns pre d = true) (hsub : d.hasSubtypes = true) :
-    d.isStruct = true ∧ fmtClass d.name = d.name ∧ d.parent = none := by
+    d.isStruct = true ∧ d.parent = none := by
   unfold typeWF at h
   simp only [Bool.and_eq_true] at h
   have h6 := h.2
   simp only [DataType.hasSubtypes, Bool.not_eq_true'] at hsub
-  simp only [hsub, Bool.false_or, Bool.and_eq_true, beq_iff_eq, Option.isNone_iff_eq_none] at h6
-  exact ⟨h6.1.1, h6.1.2, h6.2⟩
+  simp only [hsub, Bool.false_or, Bool.and_eq_true, Option.isNone_iff_eq_none] at h6
+  exact ⟨h6.1, h6.2⟩
 
 theorem typeWF_subtype_mem {api : Api} (hapi : apiWF api = true) {ns : Namespace} (hns : ns ∈ api.namespaces)
     {pre : List DataType} {d : DataType} (h : typeWF api ns pre d = true) {sns sn : Name}
